@@ -102,7 +102,8 @@ Applies(site, class) ==
       \* "byte-sweep": EVERY byte of the structured part of every page of a small file (page headers, cell pointer
       \* arrays, cell headers, record headers, first and last bytes of the bodies), one image per byte and class;
       \* huge-length = the varint continuation bit set
-      [] site = "byte-sweep" -> class \in {"zero", "max32", "plus-one", "minus-one", "huge-length"}
+      \* doubled = 0x80: a varint byte that is nothing but the continuation bit (over-long encodings: 80 01 = 1)
+      [] site = "byte-sweep" -> class \in {"zero", "max32", "plus-one", "minus-one", "huge-length", "doubled"}
       \* "journal-header": a well-formed hot-journal header (magic, record count, nonce, initial size, sector size, page
       \* size) with ONE field replaced -- doubled = every power of two 2^0..2^31 -- or the file cut at every length
       \* around the header and the first sector
